@@ -38,6 +38,8 @@ func main() {
 		code = scenarioRoute()
 	case "relay":
 		code = scenarioRelay()
+	case "stamp":
+		code = scenarioStamp()
 	default:
 		fmt.Println("unknown scenario", flag.Arg(0))
 		code = 2
